@@ -8,6 +8,8 @@ CONSTANTS
   GrantSizes = {1, 4}
   MaxGrants = 5
   DEV_EmptyChunkStalls = FALSE
-INVARIANTS NeverOver Exact NoHang Independent EmitCase
+  Resets = FALSE
+  DEV_ResetKeepsPulling = FALSE
+INVARIANTS NeverOver Exact NoHang Independent ResetStopsPulling EmitCase
 VIEW View
 CHECK_DEADLOCK FALSE
